@@ -338,6 +338,11 @@ impl<'a> Model<'a> {
                 return;
             }
         };
+        if let (Some(by_id), Some(by_marker)) = (self.id_to_mkey.get(&r.msg_id), r.marker.filter(|m| self.mrec.contains_key(m))) {
+            if *by_id != by_marker {
+                self.v("publish_response_id_mismatch", &["C08", "C09"], format!("the message delivered with id {} is not the message for which Publish returned that id", r.msg_id));
+            }
+        }
         let rec = self.mrec[&mkey];
         // C09 integrity
         if rec.data_len != r.data_len || rec.data_hash != r.data_hash {
@@ -1585,7 +1590,9 @@ impl<'a> Model<'a> {
         self.rep.feat.stream_ctrl_msgs += 1;
         let valid_raw = acks.iter().all(|a| valid_ack_id(a)) && mods.iter().all(|(a, n)| valid_ack_id(a) && *n >= 0);
         let acks_n: Vec<String> = acks.iter().map(|a| norm_ack(a)).collect();
-        let mods_n: Vec<(String, i32)> = mods.iter().map(|(a, n)| (norm_ack(a), *n)).collect();
+        // an id that one and the same request both acknowledges and modifies is acknowledged:
+        // the acknowledgement of a delivery that was outstanding when the request was made is final
+        let mods_n: Vec<(String, i32)> = mods.iter().map(|(a, n)| (norm_ack(a), *n)).filter(|(a, _)| !acks_n.contains(a)).collect();
         let (acks, mods) = (&acks_n[..], &mods_n[..]);
         let (sub, mut si) = match self.streams.get(&call) {
             Some(st) => (st.sub.clone(), st.sub_inst),
@@ -1721,9 +1728,10 @@ impl<'a> Model<'a> {
             // consumers the harness holds at a stall point cannot take messages; at least one
             // of the waiting consumers must be a genuinely waiting one
             if waiting.len() > self.stalled_now && st.backlog > 0 && self.subs[si].del_i.is_none() {
+                let unary = waiting.iter().any(|c| matches!(self.tr.calls[*c].req, Req::Pull { .. }));
                 self.v(
                     "backlog_with_waiting_consumer",
-                    &["C06"],
+                    if unary { &["C06", "C15"] } else { &["C06"] },
                     format!("at a quiescent point {} has {} message(s) in its backlog while {} consumer call(s) {:?} are waiting", st.name, st.backlog, waiting.len(), waiting),
                 );
             }
